@@ -254,6 +254,10 @@ func (w *world) middleware(i int) actor.MiddlewareFunc {
 	who := fmt.Sprintf("M%d", i)
 	return func(next actor.ReceiveFunc) actor.ReceiveFunc {
 		return func(c *actor.Context) {
+			if p := c.PID(); p == nil || p.ID != "target/1" {
+				next(c) // the decoy's own deliveries are not part of the observation
+				return
+			}
 			e := Entry{Who: who, Phase: "in", From: w.fromIndex(c.Sender())}
 			switch m := c.Message().(type) {
 			case actor.Initialized:
@@ -511,6 +515,8 @@ func Run(spec Spec, waitOrphans bool) (*Obs, *Sim, error) {
 		return &rcv{w: w, inc: int(w.incs.Add(1))}
 	}
 	spawnDiverged := ""
+	var sharedOpt actor.OptFunc
+	var decoy *actor.PID
 	spawn := func(first bool) {
 		w.firstSpawn = first
 		w.mu.Lock()
@@ -522,7 +528,14 @@ func Run(spec Spec, waitOrphans bool) (*Obs, *Sim, error) {
 		}
 		if len(mws) > 0 {
 			if spec.Split > 0 && spec.Split < len(mws) {
-				opts = append(opts, actor.WithMiddleware(mws[:spec.Split]...), actor.WithMiddleware(mws[spec.Split:]...))
+				// the first option is built from a slice with spare capacity and is REUSED for a second
+				// actor below: an option value must not share state with the actors configured by it
+				if sharedOpt == nil {
+					base := make([]actor.MiddlewareFunc, spec.Split, spec.Split+4)
+					copy(base, mws[:spec.Split])
+					sharedOpt = actor.WithMiddleware(base...)
+				}
+				opts = append(opts, sharedOpt, actor.WithMiddleware(mws[spec.Split:]...))
 			} else {
 				opts = append(opts, actor.WithMiddleware(mws...))
 			}
@@ -548,6 +561,11 @@ func Run(spec Spec, waitOrphans bool) (*Obs, *Sim, error) {
 		got := e.Spawn(producer, "target", opts...)
 		if !got.Equals(w.pid) {
 			panic("harness: unexpected pid " + got.String())
+		}
+		if sharedOpt != nil && decoy == nil {
+			// a bystander configured with the same first option plus a middleware of its own; that
+			// middleware must never see a delivery of the target
+			decoy = e.SpawnFunc(func(*actor.Context) {}, "decoy", actor.WithID("1"), sharedOpt, actor.WithMiddleware(w.middleware(99)))
 		}
 		w.mu.Lock()
 		obs.SpawnLogLen = append(obs.SpawnLogLen, len(w.log))
@@ -746,6 +764,9 @@ func Run(spec Spec, waitOrphans bool) (*Obs, *Sim, error) {
 	e.Unsubscribe(mon)
 	<-e.Poison(mon).Done()
 	<-e.Poison(byst).Done()
+	if decoy != nil {
+		<-e.Poison(decoy).Done()
+	}
 	return obs, sim, nil
 }
 
